@@ -880,6 +880,12 @@ func (g *Gen) genC04(n int) error {
 			g.st("case")
 			continue
 		}
+		if i == 17 || i == 18 || i == 19 {
+			// more fields than one byte counts: 136+, exactly 128, 127 / 129
+			g.wideSchemaCase(true)
+			g.st("case")
+			continue
+		}
 		g.setMode()
 		cfg := g.defaultCfg()
 		cfg.syn = g.chance(0.4)
@@ -1231,6 +1237,14 @@ func (g *Gen) genMerge(prop string, n int) error {
 			g.st("case")
 			continue
 		}
+		if prop == "C06" && i%100 == 11 {
+			g.freq0MergeCase(func(m string) {
+				g.dumpIndex(m)
+				g.dumpDv(m, "-")
+			})
+			g.st("case")
+			continue
+		}
 		if prop == "C05" && i%211 == 7 {
 			g.manySurvivorsCase()
 			g.st("case")
@@ -1495,6 +1509,15 @@ func (g *Gen) genC08(n int) error {
 		g.emit("note case %d", i)
 		if i%211 == 9 {
 			g.bigMergeCase()
+			g.st("case")
+			continue
+		}
+		if i%100 == 11 {
+			g.freq0MergeCase(func(m string) {
+				for _, f := range []string{"tags", "tagv", "_id"} {
+					g.emit("q dict %s %s aut=all lo=* hi=* probe=%s", m, f, hxList([][]byte{[]byte("common"), []byte("late"), []byte("edge"), []byte("nope")}))
+				}
+			})
 			g.st("case")
 			continue
 		}
@@ -1794,6 +1817,12 @@ func (g *Gen) wideSchemaCase(files bool) {
 	g.setMode()
 	b := &BatchSpec{Name: g.fresh("b")}
 	nf := 136 + g.r.Intn(8)
+	switch g.stats["wideschema"] % 3 {
+	case 1:
+		nf = 126 // 128 fields with _id and _all: the first count whose varint takes two bytes
+	case 2:
+		nf = 125 + 2*g.r.Intn(2) // 127 or 129
+	}
 	for d := 0; d < 4; d++ {
 		id := []byte(fmt.Sprintf("%s-%d", b.Name, d))
 		doc := DocSpec{ID: id, Plain: true}
